@@ -106,6 +106,21 @@ var pureExtras = [][]uint64{
 	{5, 5, 5, 5, 5, 5, 5}, // equal weights, n=7
 	{1, 2, 3, 4, 5, 6, 7, 8},
 	{100, 1, 1, 1, 1, 1, 1, 1, 1, 1},
+	// skewed vectors whose tries can differ in total weight by 2^63 or more (a signed / wrapped comparison of the
+	// totals picks the lighter try)
+	{12 << 60, 2 << 60, 1 << 60},
+	{1 << 60, 2 << 60, 12 << 60},
+	{2 << 60, 12 << 60, 1 << 60},
+	{10 << 60, 3 << 60, 2 << 60},
+	{3 << 60, 2 << 60, 10 << 60},
+	{11 << 60, 1 << 60, 1 << 60, 1 << 60, 1 << 60},
+	{1 << 60, 1 << 60, 9 << 60, 2 << 60, 2 << 60},
+	{w63 + 5, 7, 3},
+	{7, w63 + 5, 3},
+	{w63 + w62, w62 - 9, 5},
+	{w62, 3, w63 + w62 - 7},
+	{^uint64(0) - 3, 1, 1, 1},
+	{3 << 61, 1 << 61, 1 << 60, 1 << 60},
 }
 
 // ---- driver ---------------------------------------------------------------------------------------------------
@@ -240,7 +255,7 @@ func run(r *engine.Run) {
 	}
 	if quick {
 		r.Bound = "QUICK. pure samplers (ChooseOne/ChooseSome/ChooseSomeMaxWeight): every ordered weight vector over {1,2,3,10^6,2^62,2^63} of length 1..4, " +
-			"every vector over {1,3,10^6,2^62,2^63} of length 5, 18 hand-chosen vectors with totals at/around 2^64 (n up to 10); cnt 1..n, tries {1,2,3,10}, 3 seeds x 3 ids " +
+			"every vector over {1,3,10^6,2^62,2^63} of length 5, 31 hand-chosen vectors with totals at/around 2^64 (n up to 10); cnt 1..n, tries {1,2,3,10}, 3 seeds x 3 ids " +
 			"(vectors whose total exceeds 2^64-1: one seed/id). DRBG stream: 3 seeds x 5 nonces x 4 personalizations, 24 draws. " +
 			"oracle keeper GetRandomValidators: 4 validators, every state vector {eligible, oracle-inactive, unbonding-in-index, jailed}^4 x every token vector over {3,10^6,1.5*10^6,2^63}^4, " +
 			"ask 1..min(eligible+1,5), (tries,seed,id,chain) in 4 combinations; 3 validators over {1,2^63,2^64-1,2^64} x {eligible,inactive}^3. " +
@@ -250,7 +265,7 @@ func run(r *engine.Run) {
 			"rolling seed BeginBlocker: 3 seeds x (empty hash + 256 first bytes x 3 hash lengths). parameter corners: {sampling_try_count, max_ask_count, per_validator_request_gas} x {0,1,2,2^64-1} via MsgUpdateParams, then 4 validators x {E,I,U,X}^4 x ask 1..4 x 2 (seed,id) through GetRandomValidators and MsgRequestData; tss {max_signing_attempt, signing_period, max_de_size} x {0,1,2,2^64-1}, then RequestSigning + retry on 1..3 members. signing histories: 3 members, nonce queues {0,1,2,6}^3, threshold {1,2,3}, 2 or 3 signings requested in one block, all expiring together and retried by the real HandleSigningEndBlock in one end block, 2 seeds; requests and retries replayed sequentially by the reference"
 	} else {
 		r.Bound = "THOROUGH. pure samplers: every ordered weight vector over {1,2,3,10^6,2^62,2^63} of length 1..6 and over {1,2,3,7,10^6,2^62,2^63-1,2^63} of length 1..5, " +
-			"18 hand-chosen vectors at/around a total of 2^64; cnt 1..n, tries {1,2,3,10}, 3 seeds x 3 ids. DRBG stream as quick. " +
+			"31 hand-chosen vectors at/around a total of 2^64; cnt 1..n, tries {1,2,3,10}, 3 seeds x 3 ids. DRBG stream as quick. " +
 			"oracle keeper: 4 validators {E,I,U,X}^4 x {1,3,10^6,1.5*10^6,2^62,2^63}^4, tries {1,3,10} x 2 seeds x 2 ids (+ second chain id); 5 validators {E,I,U,X}^5 x {3,10^6,2^63}^5, tries {1,3}; " +
 			"6 validators {E,I}^6 x {3,10^6,1.5*10^6,2^62}^6; near-2^64 as quick. MsgRequestData: additionally 4 equal-stake validators and 5 validators {E,I,U}^5. " +
 			"tss GetRandomMembers: groups of 1..6 members; RequestSigning + retry: 1..5 members. rolling seed as quick. parameter corners: {sampling_try_count, max_ask_count, per_validator_request_gas} x {0,1,2,2^64-1} via MsgUpdateParams, then 4 validators x {E,I,U,X}^4 x ask 1..4 x 2 (seed,id) through GetRandomValidators and MsgRequestData; tss {max_signing_attempt, signing_period, max_de_size} x {0,1,2,2^64-1}, then RequestSigning + retry on 1..3 members. signing histories: 3 members, nonce queues {0,1,2,6}^3, threshold {1,2,3}, 2 or 3 signings requested in one block, all expiring together and retried by the real HandleSigningEndBlock in one end block, 2 seeds; requests and retries replayed sequentially by the reference"
@@ -276,6 +291,7 @@ func run(r *engine.Run) {
 		"members:ok", "members:too-few",
 		"signing:attempt1:ok", "signing:attempt2:ok", "signing:attempt1:too-few", "signing:attempt2:too-few",
 		"seed:shifted", "seed:unchanged-empty-hash",
+		"pure:max:tries-differ-by-2^63-or-more", "tssparams[max_group_size=2]:accepted", "tssparams[max_group_size=2]:signing:attempt1:ok", "tssparams[max_group_size=0]:rejected",
 		"sighist:request:ok", "sighist:retry:ok", "sighist:retry:too-few", "sighist:two-or-more-retries-in-one-endblock", "sighist:retry-and-fall-in-one-endblock",
 		"params[sampling_try_count=1]:accepted", "params[sampling_try_count=1]:vals:ok", "params[sampling_try_count=2]:valtx:ok",
 		"params[max_ask_count=2]:accepted", "tssparams[signing_period=1]:accepted", "tssparams[signing_period=1]:signing:attempt1:ok",
